@@ -56,7 +56,7 @@ check('C01', 'llparser',
       'TLC-built bounded grammar families replayed on the real LLParser; every returned tree judged by TLC against '
       'the TLA+ definition of a valid derivation (ValidParse) of the user grammar',
       'Every grammar of the bounded families (all ordered alternative lists incl. nullable, ambiguous, common-prefix and '
-      'nested-prefix ones, both smart_factorization settings, both dict orders, keyword/synonym tokenizer) is built by '
+      'nested-prefix ones, both smart_factorization settings, both dict orders, keyword/synonym/quoted-word tokenizer, explicitly empty skip_tokens, every symbol as explicit start_symbol_name) is built by '
       'the TLA+ case builder, parsed by the real parser on all inputs up to the length bound, and every returned tree '
       'is accepted or rejected by TLC against ValidParse: root, each node a user production, yield = tokens.',
       _LLNOTE, 'DESIGN.md section 4, C01')
@@ -65,7 +65,9 @@ check('C02', 'llparser',
       'TLA+ FIRST/FOLLOW theory; the real parser must agree on is_ambiguous() and on acceptance of every input',
       'For every grammar of the bounded families the A-spec (independent FIRST/FOLLOW fixpoints, predict-set '
       'disjointness, bounded language fixpoint) gives ll1 and the sentence set; the real parser is run on all inputs up '
-      'to the bound, members and non-members, for both smart settings; is_ambiguous() is re-read after the parses.',
+      'to the bound, members and non-members, for both smart settings; is_ambiguous() is re-read after the parses; a '
+      'conflict-free grammar must not be refused by the constructor (for either setting).  Extra families: wide '
+      'common-prefix groups of up to 6 alternatives (W6) and chains with nullable heads (H3).',
       _LLNOTE, 'DESIGN.md section 4, C02')
 check('C03', 'llparser',
       'TLC decides LeftRecursive(G) (transitive left-corner relation behind nullable prefixes) for every grammar of the '
@@ -74,7 +76,9 @@ check('C03', 'llparser',
       'All grammars of the families over all name assignments (families are closed under renaming, start symbol varies) '
       'and both dict orders, plus the left-recursion focused family R3 (3 symbols, base alternatives and one sequence of '
       'non-terminals): constructor outcome compared with the TLA+ left-recursion relation; all inputs up to the '
-      'bound parsed under a step budget counted through the parser debug hooks (no wall-clock verdicts).',
+      'bound parsed under a step budget counted through the parser debug hooks (no wall-clock verdicts).  '
+      'LLListExpand.tla gives the productions a ListProds template generates for all 64 option sets; the real template '
+      'must be refused exactly when they are left recursive, and accepted ones must terminate.',
       _LLNOTE, 'DESIGN.md section 4, C03')
 
 ENGINES['color'] = ('specs/color', ['C08', 'C09', 'C14'],
@@ -123,7 +127,7 @@ check('C15', 'sql',
       'through SqlMethod on a real sqlite3 connection, returned rows / recorded SQL text / bound values compared',
       'Every single condition of the family (comparisons x all pool values incl. NULL, quotes and wildcards; IN/NOT IN '
       'with empty, singleton and NULL-containing lists as list/tuple/set; NULL tests; LIKE/NOT LIKE; keyword filters; '
-      'OR groups incl. empty; ignored None) is evaluated by the spec on a 49-row table of all value pairs and executed '
+      'OR groups incl. empty and with keyword operands; static conditions; ignored None) is evaluated by the spec on a 49-row table of all value pairs and executed '
       'in four API spellings x both placeholder styles (? and %s) x plain / underscore-prefixed column names; lists of up to 3 conditions by TLC simulation (quick) and all pairs exhaustively '
       '(thorough).  Checked: rows and order, list/all/one/one_or_none, no value in the SQL text, one placeholder per '
       'bound value in spec order, identical SQL for identical shapes.',
@@ -143,7 +147,7 @@ check('C16', 'http',
       'of a shared mutable attribute of the underlying connection (found in the bytecode of the working tree) and at lock '
       'acquisition and enumerates all schedules by stateless DFS (a removed or narrowed lock just yields more '
       'schedules); each execution trace (loads, stores, lock events, ids handed to the opener) is judged by TLC: ids '
-      'distinct, gap free up to the numbers lost to failed requests, caller ids untouched, also when all requests share one caller headers dict, for all five verbs (verdict) and the event sequence is a behaviour of ReqId (drift).',
+      'distinct, gap free up to the numbers lost to failed requests, caller ids (strings, 0, empty, set by a request adapter) untouched, also when all requests share one caller headers dict, for all five verbs (verdict) and the event sequence is a behaviour of ReqId (drift).',
       'Trusted: TLC, CPython 3.12 sys.monitoring, the cooperative lock shim. Instructions other than shared accesses '
       'are thread local.  Quick tier caps the schedules per configuration (evidence says when the cap was hit).',
       'DESIGN.md section 4, C16')
@@ -172,7 +176,7 @@ check('C18', 'xls',
       '{blank,a,b,0} for 1 (quick) / 2 (thorough) data rows, single and composite (2 attribute) keys, with and without trailing content, and simulates sheets of '
       'up to 4 rows; invariants OriginsHold and LadderEquivalence hold on the spec; the real reader must return the '
       'same objects (None for blank keys), attribute values, per-attribute / per-key / range origins, defaults for the '
-      'missing optional and the external attribute, the same through the TableReader mixin of a derived class, and the ladder reading must equal the plain reading of the '
+      'missing optional and the external attribute, the same when two objects per row are read and through the TableReader mixin of a derived class, and the ladder reading must equal the plain reading of the '
       'filled-in sheet produced by the spec.',
       'Trusted: TLC; mock worksheet (cells with value/coordinate/parent.title). Rule-set shape fixed as in the evidence '
       'assumptions; distinct column titles.',
@@ -214,7 +218,7 @@ check('C13', 'ppobj',
       'All life cycles of 2 actions over one-column tables (fixed and ranged widths, modifiers, break-by, 6 limit '
       'settings and half-open limits given through the constructor argument) exhaustively and TLC simulations of 6 actions over 2 columns incl. repeated fields, on tables of 2, 4 '
       'and 6 records (so limits skip or do not skip).  After every action: PPTable(records, fmt=str(t.fmt)) and a '
-      'copy with copy.fmt = str(t.fmt) must render exactly like t; "", ";" and ";;" must change nothing; the shape of '
+      'copy with copy.fmt = str(t.fmt) must render exactly like t (also after remove_columns, on tables of up to 60 records); "", ";" and ";;" must change nothing; the shape of '
       'str(t.fmt) is compared with the I-spec (drift only).',
       'Trusted: TLC; deep copies to observe a table without printing it; fixed record set and field types.',
       'DESIGN.md section 4, C13')
@@ -229,7 +233,7 @@ check('C10', 'render',
       'All histories of 4 actions (NewConf with 2 contents / no_color, DropConf + gc, SetGlobal, Render through a slot or '
       'the global configuration, colour / no_color, whole / line by line: each line at once, all lines collected first, interleaved with another rendering of the same object) on the table kind and TLC simulations of 12 '
       'actions over 7 object kinds (pretty-printed value, two tables sharing an enum field type, record formatter, '
-      'h-doc help, an object starting with an empty line, the git history report).  Each event must equal the fresh-interpreter output for its '
+      'h-doc help, an object starting with an empty line, the git history report, a table with non-string title items, a table whose limits are changed between two printings).  Each event must equal the fresh-interpreter output for its '
       '(object, configuration content, no_color), line-by-line = whole, stripped colour output = no_color output, no '
       'ESC in no_color output.',
       'Trusted: TLC, harness/sgr.py; objects and configuration contents fixed in harness/c10_objs.py; colours compared '
@@ -290,7 +294,7 @@ check('C07', 'ghist',
       'All pairs of a component (2 commits, 0-2 build tags per commit; versions from the tag text or from a VERSION file that changes with every commit; DAG components with a diamond family) and a parent history of 2 (quick) / 3 '
       '(thorough) commits with merges, tags, 1-2 branches and every non-decreasing pin assignment, plus TLC '
       'simulations up to 4 component / 7 parent commits and 3 branches: RBuild.included_at of every report-related '
-      'component build must be exactly the ancestry-minimal builds (or unbuilt head) of each parent branch whose pin '
+      'component build (component versions from tag text, from a VERSION file, or builds detected as bumps of the saved number; parents that pin a second component) must be exactly the ancestry-minimal builds (or unbuilt head) of each parent branch whose pin '
       'contains it, each such parent build must be reported, supply order of the repositories varied.  All dependency '
       'graphs on 2-3 (thorough: 4) repositories x all supply orders: components first, cycles rejected with ValueError.',
       'Trusted: TLC, the mock repositories. Linear component; parent heads not inside a lower-sorted branch (finding '
